@@ -124,9 +124,8 @@ func genRawInput(t *rapid.T, tpl *gen.Template) ([]byte, string) {
 		// a valid message of the template, mutated
 		po := gen.DefaultPop
 		po.Small = true
-		po.NoTrailerPop = true
 		c := gen.Populate(t, *tpl, po)
-		msg := gen.Expected(c, false)
+		msg := gen.Expected(c, true)
 		k := rapid.IntRange(0, 4).Draw(t, "edits")
 		for i := 0; i < k && len(msg) > 0; i++ {
 			pos := rapid.IntRange(0, len(msg)-1).Draw(t, "pos")
@@ -165,11 +164,11 @@ func genHostileFramed(t *rapid.T, tpl *gen.Template) ([]byte, string) {
 	if rapid.IntRange(0, 9).Draw(t, "nearValid") < 6 {
 		// tokens of a valid population, then token-level damage: the result
 		// stays correctly framed and goes deep into group parsing
-		po := gen.PopOpts{Small: true, Decoys: true, PresentPct: 75, MaxEntries: 3, NoTrailerPop: true}
+		po := gen.PopOpts{Small: true, Decoys: true, PresentPct: 75, MaxEntries: 3}
 		c := gen.Populate(t, *tpl, po)
-		h, b, _ := gen.Wire(c)
+		h, b, tr := gen.Wire(c)
 		var toks []ref.Tok
-		for _, l := range append(h, b...) {
+		for _, l := range append(append(h, b...), tr...) {
 			toks = append(toks, l.Tok)
 		}
 		k := rapid.IntRange(1, 3).Draw(t, "tokEdits")
